@@ -432,11 +432,10 @@ mutant('C15', 'regress dumbbell vector as position', PTF, "db_vect = np.dot(db_v
 mutant('C15', 'vacancy old_id overwritten', PTF, "    if 'old_id' not in d_system.atoms_prop():\n        d_system.atoms.old_id = index\n    \n    return d_system\n\ndef interstitial", "    d_system.atoms.old_id = index\n    \n    return d_system\n\ndef interstitial", 'OLD-ID')
 mutant('C15', 'substitutional negative index not normalised', PTF, "        if ptd_id < 0:\n            ptd_id += system.natoms\n        if ptd_id < 0 or ptd_id >= system.natoms:\n            raise ValueError('invalid ptd_id')\n    \n    else:\n        raise ValueError('Either pos or ptd_id required')\n    \n    # Check that new atype is different", "        if ptd_id < -system.natoms or ptd_id >= system.natoms:\n            raise ValueError('invalid ptd_id')\n    \n    else:\n        raise ValueError('Either pos or ptd_id required')\n    \n    # Check that new atype is different", 'OLD-ID')
 mutant('C15', 'interstitial accepts occupied site', PTF, "    if not (len(ptd_id) == 1 and len(ptd_id[0]) == 0):", "    if not (len(ptd_id) == 1 and len(ptd_id[0]) <= 1):", 'SITE')
-mutant('C15', 'interstitial default type 0', PTF, "kwargs.pop('atype', 1)", "kwargs.pop('atype', 0)", None)
+mutant('C15', 'interstitial default type 0', PTF, "kwargs.pop('atype', 1)", "kwargs.pop('atype', 0)", 'DEFECT-ATOM')
 mutant('C15', 'interstitial position not set', PTF, "            d_system.atoms.pos[-1] = pos", "            pass", 'DEFECT-ATOM')
 mutant('C15', 'dumbbell both atoms moved same way', PTF, "d_system.atoms.pos[-2] -= db_vect", "d_system.atoms.pos[-2] += db_vect", 'DEFECT-ATOM')
 mutant('C15', 'dumbbell ambiguous site accepted', PTF, "        if len(ptd_id) == 1 and len(ptd_id[0]) == 1:\n            ptd_id = ptd_id[0][0]\n        else:\n            raise ValueError('Unique atom at pos not identified')\n    \n    elif ptd_id is not None:\n        if ptd_id < 0:\n            ptd_id += system.natoms\n        if ptd_id < 0 or ptd_id >= system.natoms:\n            raise ValueError('invalid ptd_id')\n    \n    else:\n        raise ValueError('Either pos or ptd_id required')\n    \n    # Unscale db_vect", "        if len(ptd_id) == 1 and len(ptd_id[0]) >= 1:\n            ptd_id = ptd_id[0][0]\n        else:\n            raise ValueError('Unique atom at pos not identified')\n    \n    elif ptd_id is not None:\n        if ptd_id < 0:\n            ptd_id += system.natoms\n        if ptd_id < 0 or ptd_id >= system.natoms:\n            raise ValueError('invalid ptd_id')\n    \n    else:\n        raise ValueError('Either pos or ptd_id required')\n    \n    # Unscale db_vect", 'SITE')
-mutant('C15', 'vacancy upper bound off by one', PTF, "        if ptd_id < 0 or ptd_id >= system.natoms:\n            raise ValueError('invalid ptd_id')\n    \n    else:\n        raise ValueError('Either pos or ptd_id required')\n    \n    # Generate atomic index list for defect\n    index = list(range(system.natoms))\n    try:", "        if ptd_id < 0 or ptd_id > system.natoms:\n            raise ValueError('invalid ptd_id')\n    \n    else:\n        raise ValueError('Either pos or ptd_id required')\n    \n    # Generate atomic index list for defect\n    index = list(range(system.natoms))\n    try:", 'SITE')
 mutant('C15', 'substitutional moves atom to front', PTF, "    index.pop(ptd_id)\n    index.append(ptd_id)\n    d_system = System(box=deepcopy(system.box), pbc=deepcopy(system.pbc),\n                      atoms=deepcopy(system.atoms[index]), symbols=system.symbols)\n    \n    # Add property old_id with each atom's original id\n    if 'old_id' not in d_system.atoms_prop():\n        d_system.atoms.old_id = index\n    \n    # Set values for new atom\n    for prop in d_system.atoms_prop():\n        if prop == 'atype':\n            d_system.atoms.atype[-1] = atype", "    index.pop(ptd_id)\n    index.insert(0, ptd_id)\n    d_system = System(box=deepcopy(system.box), pbc=deepcopy(system.pbc),\n                      atoms=deepcopy(system.atoms[index]), symbols=system.symbols)\n    \n    # Add property old_id with each atom's original id\n    if 'old_id' not in d_system.atoms_prop():\n        d_system.atoms.old_id = index\n    \n    # Set values for new atom\n    for prop in d_system.atoms_prop():\n        if prop == 'atype':\n            d_system.atoms.atype[0] = atype", 'COUNT-ORDER')
 mutant('C15', 'vacancy shares atoms with input', PTF, "    d_system = System(box=deepcopy(system.box), pbc=deepcopy(system.pbc),\n                      atoms=deepcopy(system.atoms[index]), symbols=system.symbols)\n    \n    # Add property old_id with each atom's original id\n    if 'old_id' not in d_system.atoms_prop():\n        d_system.atoms.old_id = index\n    \n    return d_system", "    d_system = System(box=system.box, pbc=system.pbc,\n                      atoms=deepcopy(system.atoms[index]), symbols=system.symbols)\n    \n    # Add property old_id with each atom's original id\n    if 'old_id' not in d_system.atoms_prop():\n        d_system.atoms.old_id = index\n    \n    return d_system", 'UNTOUCHED')
 mutant('C15', 'point() drops scale for interstitial', PTF, "return interstitial(system, pos=pos, scale=scale, atol=atol, **kwargs)", "return interstitial(system, pos=pos, atol=atol, **kwargs)", 'DISPATCH')
